@@ -39,10 +39,10 @@ def distance_segment_to_segment(f1, f2, t1, t2):
     :param t2:
     :return: (distance, proj on f, proj on t, rel pos on f, rel pos on t)
     """
-    x1, y1 = f1
-    x2, y2 = f2
-    x3, y3 = t1
-    x4, y4 = t2
+    x1, y1 = f1[0], f1[1]
+    x2, y2 = f2[0], f2[1]
+    x3, y3 = t1[0], t1[1]  # observations can have a third (time) component
+    x4, y4 = t2[0], t2[1]
     n = ((y4 - y3) * (x2 - x1) - (x4 - x3) * (y2 - y1))
     if np.allclose([n], [0], rtol=0):
         # parallel (or a zero-length segment): the minimum is realised in one of the end points
